@@ -240,6 +240,123 @@ def search_parsing(sl):
     observe("composite after_key equals the fully parsed after_key", comp["after_key"] == full["aggregations"]["outer"]["comp"].get("after_key"))
 
 
+# ------------------------------------------------------------------------------------------------------------------
+# the query runners' result records vs. full parsing of the pages they received
+# ------------------------------------------------------------------------------------------------------------------
+def _page(i, total_form, total, nhits, timed_out, took, scroll_id, sort_base):
+    hits = [{"_id": "d%d" % (sort_base + k), "_source": {"title": "t"}, "sort": [sort_base + k, STRINGS[(sort_base + k) % 4]]} for k in range(nhits)]
+    h = {}
+    if total_form == 1:
+        h["total"] = total
+    elif total_form >= 2:
+        h["total"] = {"value": total, "relation": "eq" if total_form == 2 else "gte"}
+    h["hits"] = hits
+    out = {"took": took, "timed_out": timed_out, "_shards": {"total": 5, "successful": 4, "skipped": 1, "failed": 0}, "hits": h}
+    if scroll_id:
+        out = dict([("_scroll_id", scroll_id)] + list(out.items()))
+    return out
+
+
+class _RawEs:
+    """what the Query runner touches: options(), return_raw_response(), perform_request() returning raw bytes, clear_scroll()"""
+
+    def __init__(self, pages):
+        self.pages = pages
+        self.requests = []
+        self.cleared = []
+
+    def options(self, **kw):
+        return self
+
+    def return_raw_response(self):
+        pass
+
+    async def perform_request(self, method, path, params=None, body=None, headers=None):
+        i = len(self.requests)
+        self.requests.append((path, json.loads(json.dumps(body))))
+        return pyio.BytesIO(json.dumps(self.pages[min(i, len(self.pages) - 1)], separators=(",", ":")).encode("utf-8"))
+
+    async def clear_scroll(self, body=None):
+        self.cleared.append(body)
+
+
+def query_results(sl):
+    from harness.execenv import drive
+
+    op = sl["op"]
+    # a paginated search needs the total to page (a response without hits.total, i.e. track_total_hits=false, makes it fail
+    # with a TypeError: noted in DESIGN as an observation outside this property)
+    total_form = concrete(fresh_int("hits_total_absent_number_object_gte", 1 if op == "paginated-search" else 0, 3))
+    total = [0, 1, 2, 5][concrete(fresh_int("total_hits_0_1_2_5", 0, 3))]
+    size = 2
+    n_pages = 4  # the last page served is always empty (what Elasticsearch answers once everything has been returned)
+    per_page = [min(size, max(0, total - size * i)) for i in range(n_pages)]
+    timed = [bool(fresh_bool("page%d_timed_out" % i)) for i in range(2)] + [False, False]
+    tooks = [3, 5, 11, 19]
+    pages = [_page(i, total_form if i == 0 or op == "paginated-search" else 0, total, per_page[i], timed[i], tooks[i], "scroll-1" if op == "scroll-search" else None, 1 + size * i)
+             for i in range(n_pages)]
+    es = _RawEs(pages)
+    want_pages = [1, 2, "all"][concrete(fresh_int("pages_1_2_all", 0, 2))]
+    params = {"index": "idx", "body": {"query": {"match_all": {}}}, "operation-type": op}
+    if op == "search":
+        params["detailed-results"] = True
+    else:
+        params["pages"] = want_pages
+        params["results-per-page"] = size
+    q = runner.Query()
+    how, res = drive(q(es, params))
+    core.note("op", op)
+    core.note("first page", json.dumps(pages[0])[:300])
+    core.note("result", repr(res)[:300])
+    core.trace("requests", len(es.requests))
+    observe("the query runner handles every well-formed response", how == "ret")
+    if how != "ret":
+        return
+    full0 = pages[0]
+    t = full0["hits"].get("total")
+    exp_hits = (t["value"] if isinstance(t, dict) else t) if t is not None else None
+    exp_rel = t["relation"] if isinstance(t, dict) else "eq"
+    n_req = len(es.requests)
+    if op == "search":
+        observe("search: one request", n_req == 1)
+        observe("search: hits equal the fully parsed total (0 when the response carries none)", res["hits"] == (exp_hits if exp_hits is not None else 0)
+                and type(res["hits"]) is int)
+        observe("search: relation / timed_out / took / shards as in the full parse", res["hits_relation"] == exp_rel and res["timed_out"] == full0["timed_out"]
+                and res["took"] == full0["took"] and res["shards"] == full0["_shards"])
+        return
+    got_pages = pages[:n_req]
+    observe("%s: pages == weight == number of requests" % op, res["pages"] == n_req and res["weight"] == n_req)
+    observe("%s: took is the sum over the retrieved pages" % op, res["took"] == sum(p["took"] for p in got_pages))
+    observe("%s: timed_out iff a retrieved page timed out" % op, bool(res["timed_out"]) == any(p["timed_out"] for p in got_pages))
+    limit = n_pages if want_pages == "all" else want_pages
+    if op == "scroll-search":
+        observe("scroll: hits equal the fully parsed total of the first page (0 when absent), as an integer",
+                res["hits"] == (exp_hits if exp_hits is not None else 0) and type(res["hits"]) is int)
+        observe("scroll: relation as in the full parse", res["hits_relation"] == exp_rel)
+        # documented loop: stop after the first page if it holds everything, else when a page comes back empty or the page limit is reached
+        h = exp_hits if exp_hits is not None else 0
+        exp_req = 1
+        if not (h < size or h == 0):
+            while exp_req < limit and exp_req < n_pages:
+                exp_req += 1
+                if not pages[exp_req - 1]["hits"]["hits"]:
+                    break
+        observe("scroll: number of pages fetched", n_req == exp_req)
+        observe("scroll: the scroll is cleared exactly once", es.cleared == [{"scroll_id": ["scroll-1"]}])
+    else:
+        if exp_hits is None:
+            return
+        observe("paginated: hits equal the fully parsed total of the first page", res["hits"] == exp_hits and res["hits_relation"] == exp_rel)
+        exp_req = 1
+        while exp_hits / size > exp_req and exp_req < limit:
+            exp_req += 1
+        observe("paginated: number of pages fetched", n_req == exp_req)
+        for k in range(1, n_req):
+            prev_hits = pages[k - 1]["hits"]["hits"]
+            observe("paginated: page %d continues after the sort value of the last hit of the page before" % (k + 1),
+                    es.requests[k][1].get("search_after") == (prev_hits[-1]["sort"] if prev_hits else None))
+
+
 READS = [runner.parse, runner.BulkIndex.simple_stats, runner.BulkIndex.detailed_stats, runner.BulkIndex.extract_error_details,
          runner.BulkIndex.error_description, runner.SearchAfterExtractor.__call__, runner.SearchAfterExtractor._get_last_sort,
          runner.CompositeAggExtractor.__call__]
@@ -258,6 +375,12 @@ HARNESSES = [
                     "hits.total": "absent / number / object eq / object gte", "after_key": "%d forms incl. dotted source names" % len(AFTER_KEYS),
                     "key order": "6 top-level permutations, sort before/after _source", "separators": "compact and spaced", "escapes": "ASCII-escaped and raw UTF-8"},
             doc="selective parse, search_after cursor and composite after_key vs. full parsing (real ijson/json)"),
+    Harness("query_results", query_results, "bounded-exhaustive", lambda tier: [{"op": o} for o in ("search", "scroll-search", "paginated-search")],
+            reads=READS + [runner.Query.__call__],
+            stubs=["raw Elasticsearch client: options/return_raw_response/perform_request (serves the enumerated pages as bytes)/clear_scroll"],
+            bounds={"hits.total": "absent / number / object eq / object gte", "total": "0, 1, 2, 5 with 2 results per page", "pages": "1, 2, all (<=4 served, the last one empty)",
+                    "timed_out": "per page"},
+            doc="result records of search / scroll-search / paginated-search equal the full parse of the pages received"),
 ]
 
 
